@@ -48,3 +48,6 @@ func VerifC20NewConfigurationWithoutSchema(envPrefix EnvVarPrefix, configFile Co
 
 	return &result, err
 }
+
+// VerifC20DefaultConfig is defaultConfig(): the value every load starts from.
+func VerifC20DefaultConfig() Configuration { return defaultConfig() }
